@@ -437,9 +437,65 @@ impl<'a> Interp<'a> {
         }
     }
 
+    /// cross-check of the simulator's decoder against the independent python implementation (tools/refimpl.py)
+    fn python_crosscheck(&mut self) {
+        let verif = std::env::var("VERIF_DIR").unwrap_or_else(|_| "/verif".into());
+        let out = std::process::Command::new("python3").arg(format!("{verif}/tools/refimpl.py")).arg("dump").arg(&self.cache).output();
+        let out = match out {
+            Ok(o) if o.status.success() => o.stdout,
+            _ => {
+                self.probe("python_crosscheck_unavailable");
+                return;
+            }
+        };
+        let v: Value = match serde_json::from_slice(&out) {
+            Ok(v) => v,
+            Err(_) => {
+                self.probe("python_crosscheck_unavailable");
+                return;
+            }
+        };
+        self.probe("python_crosscheck_done");
+        let d = disk::scan(&self.cache);
+        let mine = d.live_entries();
+        let py = v["live"].as_object().cloned().unwrap_or_default();
+        let mut diffs = Vec::new();
+        for (k, r) in &mine {
+            match py.get(k) {
+                None => diffs.push(format!("key {:?}: python decoder does not see it", k)),
+                Some(p) => {
+                    if p["integrity"].as_str() != r.integrity.as_deref() || p["time"].as_str() != Some(&r.time.to_string()) || p["size"].as_str() != Some(&r.size.to_string()) {
+                        diffs.push(format!("key {:?}: python {} vs simulator {:?}", k, p, r));
+                    }
+                    if !self.m.foreign && p["bucket"] != p["expected_bucket"] {
+                        self.viol("format", "format/bucket-path-not-sha1-of-key".to_string(), format!("key {:?} lives in {} but the format places it at {}", k, p["bucket"], p["expected_bucket"]));
+                    }
+                }
+            }
+        }
+        for k in py.keys() {
+            if !mine.contains_key(k) {
+                diffs.push(format!("key {:?}: only the python decoder sees it", k));
+            }
+        }
+        for cf in &d.content {
+            if let Some(ok) = v["content"].get(&cf.rel).and_then(|x| x.as_bool()) {
+                if cf.kind == disk::FileKind::Regular && ok != cf.digest_ok {
+                    diffs.push(format!("content {}: python digest check {} vs simulator {}", cf.rel, ok, cf.digest_ok));
+                }
+            }
+        }
+        if !diffs.is_empty() {
+            self.viol("format", "format/python-refimpl-differs".to_string(), format!("two independent decoders disagree about this cache: {}", diffs.join("; ")));
+        }
+    }
+
     pub fn finish(mut self) -> Outcome {
         if !self.lenient {
             self.final_checks();
+        }
+        if self.sc.get("xcheck").and_then(|x| x.as_bool()) == Some(true) && self.out.harness.is_none() {
+            self.python_crosscheck();
         }
         if self.cwd.is_some() {
             let p = self.ctx.scratch.display().to_string();
